@@ -255,7 +255,8 @@ func c15Child(cfg Cfg) int {
 		fmt.Println("cannot build env:", err)
 		return 3
 	}
-	env.FreshKeys(6)
+	// Keys 0..5 are the contended set; the rest only appear in the large batches of the load phase.
+	env.FreshKeys(64)
 	var completions atomic.Int64
 	var outstanding atomic.Int64
 
@@ -447,6 +448,11 @@ func c15Child(cfg Cfg) int {
 			for issued.Add(1) <= int64(total) && viol.Load() == 0 {
 				n := 1 + wr.Intn(4)
 				keys := wr.Perm(6)[:n]
+				if wr.Intn(25) == 0 {
+					// A large batch over many keys in a random order (it shares the contended keys with everybody).
+					n = 20 + wr.Intn(40)
+					keys = wr.Perm(64)[:n]
+				}
 				switch wr.Intn(5) {
 				case 0, 1, 2:
 					if wr.Intn(8) == 0 {
